@@ -153,6 +153,83 @@ CLAIMED.update({
         design_ref='DESIGN.md 4 C16'),
 })
 
+CLAIMED.update({
+    'C09': dict(
+        engine='schedex',
+        technique='stateless model checking with virtual time: exhaustive arrival-gap vectors x delay-bounded schedules of collector, consumer and competing workers',
+        text='Real Worker.start of an instrumented subclass (records every call() argument and its virtual time), batch_size '
+             '0-3, batch_wait_time 0 / w, 3-5 requests after every gap vector from {0, w/2, w, 2w}, exception values and '
+             'preprocess rejections, a second competing worker, an in-worker thread pool, and a 14-request run with gated '
+             'call() that fills the collector buffer (batch_size+10). Oracle: well-formed batches of genuine inputs, every '
+             'accepted request in exactly one batch, own errors for rejected ones, one correct output per request, batch '
+             'released no later than first element + wait (exact on the virtual clock).',
+        note='thread queues; call() takes no virtual time in the timing oracle',
+        design_ref='DESIGN.md 4 C09'),
+    'C11': dict(
+        engine='schedex + simproc',
+        technique='stateless model checking: enumerated failing worker position x workloads x enter/exit cycles, delay-bounded schedules; process servlets behind a simulated process boundary',
+        text='Real Server over servlet trees {Thread(2), Sequential, Ensemble, Switch, batching}: every (servlet, worker index) '
+             'fails in __init__ -> __enter__ raises that error and no thread survives; after workloads (successes, failure, '
+             'timed-out call, abandoned stream) exit, re-enter, serve, exit: every worker and helper thread gone each time. '
+             'The same with ProcessServlets whose worker processes are simulated processes behind pickling pipes with a tiny '
+             'byte capacity (abandoned inputs exceed the pipe).',
+        note='process side is a model of multiprocessing (pipes, queues, Popen) validated by the real-process twins of C12/C20; '
+             'a stream generator that is kept alive beyond the server is outside this check',
+        design_ref='DESIGN.md 4 C11'),
+    'C12': dict(
+        engine='schedex + simproc',
+        technique='stateless model checking with crash-point enumeration: a kill of the child at every scheduling point of the simulated child process x accessor orders',
+        text='mpservice Thread: 9 ways the target ends x which accessor is used first right after start() (join, result, '
+             'exception, done, wait, as_completed) x all schedules with <= 2 deviations. SpawnProcess behind the simulated '
+             'process boundary: the same plus SIGKILL/SIGTERM at EVERY scheduling point of the child (free crash choice per '
+             'point) x first accessor. Oracle: every accessor returns, values/exceptions/exit codes agree, traceback text '
+             'kept, a kill surfaces as OSError and completes wait/as_completed. Twins: 5 real children incl. real SIGKILL/SIGTERM.',
+        note='crash granularity = scheduling points of the traced child code and blocking operations',
+        design_ref='DESIGN.md 4 C12'),
+    'C13': dict(
+        engine='histex',
+        technique='explicit-state breadth-first search over operation histories, every transition executed on a real manager server and real client processes',
+        text='BFS over histories of {pickle, unpickle once, drop, store in / take from / clear a hosted list, spawn a child with '
+             'the proxy as argument, agent exits} across driver + 2 agent processes for a managed list, a shared-memory '
+             'MemoryBlock and a managed() return value; canonical state = holder multiset of the reference model (counts '
+             'capped at 2); depth 5 (thorough 7). After every transition: gc in all processes incl. the server, then '
+             'debug_info refcount == model, every live proxy usable, /dev/shm block exists iff held; finally nothing hosted.',
+        note='real processes, synchronous RPCs (no scheduler nondeterminism); 6 independent server groups in parallel',
+        design_ref='DESIGN.md 4 C13'),
+    'C14': dict(
+        engine='histex',
+        technique='bounded-exhaustive enumeration of operation sequences x issuers against a local reference object, executed on a real manager server',
+        text='All operation sequences to depth 2 (3 for Namespace, Value, custom class, empty list; thorough: depth 3 '
+             'everywhere) over list (30 ops), dict (20), Namespace (8), Value (3) and a registered custom class (raises a '
+             'custom exception, returns managed_list) x issuer vectors over {driver thread 1, driver thread 2, agent process}. '
+             'Each step compared with the same call on a local object: value, or exception type/args + remote traceback; '
+             'final state compared through the driver proxy and the agent proxy.',
+        note='argument alphabet {0, "a", (1,[2])}; dict views have nothing to round-trip (may raise or return their content)',
+        design_ref='DESIGN.md 4 C14'),
+    'C18': dict(
+        engine='seqex + schedex',
+        technique='exhaustive enumeration of chunkings x gap vectors (framing) and duration vectors (server) on a virtual event loop; delay-bounded schedule exploration of the client; real-FIFO / real-socket conformance runs',
+        text='Framing: real write_record bytes fed to a real StreamReader in every chunking into <= 3 chunks x gaps from '
+             '{0, .05, .1, .25} s (reader timeouts in between) for 7 payload kinds incl. header look-alikes and a 200 KiB blob, '
+             '1-2 records. Server: real _handle_connection with 3 requests x every handler-duration vector x failing handler x '
+             'backlog. Client: real SocketClient with in-memory connections to a scripted server answering in every order, 2 '
+             'requester threads + stream, d<=2. Named pipe: all 798 payload sequences of length <= 3 in both directions on real '
+             'FIFOs; one real unix-socket run with 48 requests incl. a 2.4 MB payload.',
+        note='kernel scheduling of the real FIFO / socket runs is not controlled',
+        design_ref='DESIGN.md 4 C18'),
+    'C20': dict(
+        engine='schedex + simproc',
+        technique='stateless model checking of parent and child protocol code behind a simulated process boundary: record counts x pipe capacities x delay-bounded schedules',
+        text='Real SpawnProcess.start/run/_collect_result/_run_logger/join/_finalize with the child side as simulated threads: '
+             'pickling pipes with capacity 1 record / 2 records / 64 KiB, multiprocessing.Queue with per-process feeder threads '
+             'joined at process exit, per-process logging hierarchies. N in {0,1,2,3,5} records, target returns / raises / '
+             'sys.exit(2). Oracle: parent handler got exactly the emitted records >= its level, once, in order; join/result '
+             'return; exit code; no thread left after finalization. Twins: real children with 4 / 300x100 B / 50x2 kB records.',
+        note='the boundary is a model of CPython multiprocessing; it predicted both real failures (212 of 300 records; hang) '
+             'on the unfixed tree, confirmed by the real twins',
+        design_ref='DESIGN.md 4 C20'),
+})
+
 PENDING_REASON = 'check not built yet in this session (planned, see DESIGN.md section 4); not claimed until it runs'
 
 
@@ -187,6 +264,14 @@ def main():
                  serves_properties=[p for p, c in CLAIMED.items() if 'seqex' in c['engine']],
                  kind_free_text='bounded-exhaustive enumeration of programs / inputs / duration vectors against a reference '
                                 'interpreter, cases spread over the worker pool'),
+            dict(name='histex', path='mc/histex.py, checks/c13.py, checks/c14.py',
+                 serves_properties=[p for p, c in CLAIMED.items() if 'histex' in c['engine']],
+                 kind_free_text='explicit-state BFS over operation histories executed on a real manager server process and '
+                                'real agent processes, reference-model canonical states'),
+            dict(name='simproc', path='mc/simproc.py',
+                 serves_properties=[p for p, c in CLAIMED.items() if 'simproc' in c['engine']],
+                 kind_free_text='simulated process boundary for schedex: pickling pipes with byte capacity, mp.Queue with '
+                                'feeder threads, Popen transcription, crash points; bound to real processes by conformance twins'),
             dict(name='schedex', path='mc/sched.py, mc/explore.py',
                  serves_properties=[p for p, c in CLAIMED.items() if 'schedex' in c['engine']],
                  kind_free_text='hand-written stateless model checker for Python threads: controlled scheduler '
